@@ -576,6 +576,13 @@ func (s *Stream) onInboundStreamReset() {
 	//	is completed, the data channel is closed.
 
 	s.readErr = io.EOF
+	// Reads end with EOF from now on: a pending read deadline has nothing left
+	// to do. (The association forgets the stream right after this call, so the
+	// teardown path will not see it again.)
+	if s.readTimeoutCancel != nil {
+		close(s.readTimeoutCancel)
+		s.readTimeoutCancel = nil
+	}
 	s.readNotifier.Broadcast()
 
 	if s.state == StreamStateClosing {
